@@ -5,7 +5,8 @@ Local Open Scope N_scope.
 (* What the harness observed on the real parser:
      status   0 = the whole input was parsed, 1 = the parser reported a syntax
               error, 2 = the alias look-up budget was exhausted (no
-              termination), 3 = panic
+              termination), 3 = panic, 10 = a case of the nested-program
+              stream (executed only, see run_case)
      lexed    number of characters the lexer had consumed when parsing stopped
      segs     the lexer's buffer after parsing, as runs of characters with the
               same chain of alias origins (indices into the alias table,
@@ -113,6 +114,13 @@ Definition run_case (c : case) : verdict :=
   let '(status, lexed, segs, trees, traces) := io in
   let t := table_of tl in
   if negb (names_unique t) then 99
+  else if status =? 10 then
+    (* nested programs ($( ), backquotes, eval): outside the model, executed only.
+       traces = (observed, trace of the script expanded by hand at every level),
+       trees  = (observed, probe sequence computed by the harness's reference evaluator) *)
+    if negb (str_eqb (fst traces) (snd traces)) then 8
+    else if negb (str_eqb (fst trees) (snd trees)) then 9
+    else 0
   else if 2 <=? status then 6                        (* no termination / panic *)
   else
     let ibuf := unsegment t segs in
